@@ -243,6 +243,15 @@ func execConc(sim *core.Sim, prop string, p *Plan, out *core.Outcome) *concResul
 	for _, s := range schemes {
 		transport.UnregisterDialer(s)
 	}
+	if len(p.Yield) > 0 {
+		sim.Probe("registry-calls-with-pauses-inside")
+		sim.EnableYields(p.Yield)
+		defer func() {
+			if n := sim.DisableYields(); n > 0 {
+				sim.ProbeN("pauses-inside-library-code", n)
+			}
+		}()
+	}
 	start := time.Now()
 	recs := make([][]rec, len(clients))
 	gos := make([]*core.GoResult, len(clients))
